@@ -543,3 +543,31 @@ mod tests {
         );
     }
 }
+
+#[cfg(feature = "verif-hooks")]
+impl Recv {
+    /// Read-only projection for external verification harnesses
+    pub(in crate::connection) fn verif_probe(&self, id: u64) -> crate::verif::RecvProbe {
+        let (state, final_size, reset_code) = match self.state {
+            RecvState::Recv { size: None } => (0, None, None),
+            RecvState::Recv { size: Some(n) } => (1, Some(n), None),
+            RecvState::ResetRecvd { size, error_code } => {
+                (2, Some(size), Some(error_code.into_inner()))
+            }
+        };
+        let (buffered, allocated, chunks) = self.assembler.verif_probe();
+        crate::verif::RecvProbe {
+            id,
+            state,
+            final_size,
+            reset_code,
+            end: self.end,
+            stopped: self.stopped,
+            sent_max_stream_data: self.sent_max_stream_data,
+            bytes_read: self.assembler.bytes_read(),
+            buffered,
+            allocated,
+            chunks,
+        }
+    }
+}
